@@ -67,7 +67,8 @@ fn slot_of(tok: &str) -> usize {
 fn xprobe_bw(cap: usize, mode: &str, dir: &str) -> String {
     use tokio::io::AsyncWriteExt;
     crate::common::set_capture(false);
-    let crash = mode == "crash";
+    let crash = mode.starts_with("crash");
+    let form_w = mode.ends_with('w');
     let writer_accepts = dir == "s2c";
     let mut sim = turmoil::Builder::new()
         .tcp_capacity(cap)
@@ -77,10 +78,21 @@ fn xprobe_bw(cap: usize, mode: &str, dir: &str) -> String {
         .rng_seed(17 + cap as u64)
         .simulation_duration(Duration::from_secs(5))
         .build();
-    let write_until_error = |mut s: turmoil::net::TcpStream| async move {
+    let write_until_error = move |mut s: turmoil::net::TcpStream| async move {
         let r = tokio::time::timeout(Duration::from_millis(1000), async {
             loop {
-                s.write_all(&[0x77, 0x78]).await?;
+                if form_w {
+                    // the non-blocking form: wait until the stream is writable, then try; a reset stream is
+                    // "writable" (the write reports the error)
+                    s.writable().await?;
+                    match s.try_write(&[0x77, 0x78]) {
+                        Ok(_) => {}
+                        Err(e) if e.kind() == std::io::ErrorKind::WouldBlock => {}
+                        Err(e) => return Err(e),
+                    }
+                } else {
+                    s.write_all(&[0x77, 0x78]).await?;
+                }
             }
             #[allow(unreachable_code)]
             Ok::<(), std::io::Error>(())
